@@ -668,7 +668,7 @@ def run(ctx):
         'CONVERGENCE IS VALIDATED, NOT PROVED: "iterates approach the optimum, constraints end up satisfied" is checked by the oracle on generated '
         'problems only (partial); MMA without globalisation can cycle on non-separable constraints when the asymptote offset is clamped from below, '
         f'so the oracle demands only distance <= max({CONV_ABS}, {CONV_REL}*initial distance) (relative to xmax-xmin) and scaled constraint violation <= {CONV_G} '
-        'after 40 (quick) / 60 iterations on problems with at least one active constraint; failures with asybound < 6 are the known finding K-C10-mma-cycles',
+        'after 40 (quick) / 60 iterations on problems with at least one active constraint; failures with asybound < 6 are the known finding K04 (MMA cycles)',
         'the Newton direction inside subsolv (which uses np.linalg.solve) and np.linalg.norm are parameters of the model: the interior and exit '
         'theorems hold for every direction / norm; convergence of the Newton iteration is not claimed (known finding: subsolv gives up)',
     ]
@@ -679,11 +679,6 @@ def run(ctx):
         'same polymorphic model term interpreted over R (theorems) and over Q (evaluation); no Q2R transfer lemma',
         'monkeypatching of pymoto.common.mma.subsolv / residual / MMA.mmasub records faithfully (wrappers only copy arguments and results)',
     ]
-    # the give-up finding is reported as a known finding even before known_findings.json lists it
-    for kid, trip, text in (('K-C10-subsolv-gives-up', K_STALL, K_STALL_TEXT), ('K-C10-mma-cycles', K_CYCLE, K_CYCLE_TEXT)):
-        if not any(f.get('status') == 'known' and (f['call_site'], f['predicate'], f['input_class']) == trip for f in ctx.findings):
-            ctx.findings.append(dict(property='C10', id=kid, status='known', call_site=trip[0], predicate=trip[1],
-                                     input_class=trip[2], text=text))
     vlib.audit(ctx)
     if not vlib.ensure_static(ctx, ['theories/Props/C10.vo', 'theories/Model/MMAcorr.vo']):
         return
